@@ -17,7 +17,7 @@ ASSUMPTIONS = ['option keys are concrete; one option under test at a time plus p
 OUT = 'parsing machine files and the command line into dictionaries (cmdline.py, machinefile.py), compiler-specific option registration, optinterpreter'
 MANIFEST = dict(
     text='Bounded symbolic decision over ALL subsets of value sources (2^3 top level, 2^8 subproject) and all values within the stated ranges at once: effective value = '
-         'highest-priority present source, invalid value => MesonException, stored value always valid; prefix-dependent directory defaults; buildtype expansion.',
+         'highest-priority present source, invalid value => MesonException, stored value always valid; prefix-dependent directory defaults (every prefix spelling with/without a trailing slash); buildtype expansion; per-machine options in native and cross builds incl. subproject keys; yielding options of every kind; the documented deprecated: forms.',
     note='Trusted: symx engine, z3, the precedence lists from docs/markdown/Builtin-options.md and Machine-files.md. Bounds: integer values -9..9, ranges -5..5, one option under test, one subproject.')
 
 O = ME = None
